@@ -228,17 +228,20 @@ impl Format {
                         })?;
                     }
                     break;
-                } else if char == 'Z' {
-                    // This is a single character to represent UTC
-                    // UTC is the default time scale, so we don't need to do anything.
-                    break;
                 }
+                // A 'Z' that is not a separator of this item is the single character that represents UTC.
+                // UTC is the default time scale, so there is nothing to read after it: stop, but only once
+                // the field that it ends has been read.
+                let mut stop = char == 'Z'
+                    && !cur_item.sep_char_is(char)
+                    && !cur_item.second_sep_char_is(char);
                 prev_item = cur_item;
                 prev_token = cur_token;
 
                 let end_idx = if !is_last || !char.is_numeric() {
                     // Only advance the token if we aren't at the end of the string
-                    if cur_item.sep_char_is_not(char)
+                    if !stop
+                        && cur_item.sep_char_is_not(char)
                         && (cur_item.second_sep_char.is_none()
                             || (cur_item.second_sep_char_is_not(char)))
                     {
@@ -252,18 +255,18 @@ impl Format {
                         });
                     }
 
-                    // Advance the token, unless we're at the end of the tokens.
-                    if cur_item_idx == self.num_items {
-                        break;
-                    }
-                    cur_item_idx += 1;
-                    // A format may hold the maximum number of tokens: there is no item past the last one.
-                    match self.items.get(cur_item_idx).copied().flatten() {
-                        Some(item) => {
-                            cur_item = item;
-                            cur_token = cur_item.token;
+                    // Advance the token, unless we're at the end of the tokens: then the field that this
+                    // character ends is the last one to read.
+                    if !stop {
+                        cur_item_idx += 1;
+                        // A format may hold the maximum number of tokens: there is no item past the last one.
+                        match self.items.get(cur_item_idx).copied().flatten() {
+                            Some(item) => {
+                                cur_item = item;
+                                cur_token = cur_item.token;
+                            }
+                            None => stop = true,
                         }
-                        None => break,
                     }
 
                     idx
@@ -374,6 +377,9 @@ impl Format {
                     }
                 }
 
+                if stop {
+                    break;
+                }
                 prev_idx = idx + char.len_utf8();
                 // If we are about to parse an hours offset, we need to set the sign now.
                 if cur_token == Token::OffsetHours {
